@@ -162,6 +162,7 @@ func cmdC09(args []string) {
 	patFile := fs.String("patterns", "", "")
 	outPath := fs.String("out", "", "")
 	scratch := fs.String("scratch", "", "directory for substituted copies")
+	flipBools := fs.Bool("flipbools", false, "only the checkers that have boolean parameters, every one of them set to the opposite of its default")
 	fs.Parse(args)
 	core.Init()
 	out := core.NewOut(*outPath)
@@ -169,6 +170,32 @@ func cmdC09(args []string) {
 	cnt := core.NewCounter()
 	pkgs, _ := loadOrDie(*dir, *patFile)
 	infos := core.Infos()
+	if *flipBools {
+		// a proposal must be valid whatever the configuration: the non-default settings of the boolean parameters
+		over := map[string]map[string]interface{}{}
+		var with []*linter.CheckerInfo
+		for name, ps := range core.ParamSnapshot() {
+			if name == "ruleguard" {
+				continue
+			}
+			for k, v := range ps {
+				if bv, ok := v.(bool); ok {
+					if over[name] == nil {
+						over[name] = map[string]interface{}{}
+					}
+					over[name][k] = !bv
+				}
+			}
+		}
+		core.SetParams(over)
+		for _, i := range infos {
+			if over[i.Name] != nil {
+				with = append(with, i)
+				cnt.Put("checkers_run_with_flipped_boolean_parameters", i.Name)
+			}
+		}
+		infos = with
+	}
 	fallback := importer.ForCompiler(token.NewFileSet(), "gc", nil)
 	samples := 0
 	nscratch := 0
